@@ -455,6 +455,12 @@ let spec_check (know : int list) (s : sx) =
       (* value level, Map<K, Orswot>: op-based causal delivery without state transfer -- the member table under
          every key is the specification of the knowledge (theorems C05_mapor_values_refine / C01_mapor_converge of
          proofs/MapOrswot.v; T2 needs a merge, T3 leaves member tables alone: never attributed to a known finding) *)
+      (* EXPERIMENT (statement validation for the per-actor theorem): op-based per-actor delivery, no update carrying a nested remove *)
+      if !ty = "mapor" && not !merges_seen && !all_per_actor && not !all_causal
+         && not (List.exists (fun (_, o, _) -> Known.is_up o && Known.contains_remove (field "op" o)) !hist) then begin
+        let okv = movalspec_ok (history_of (mop_sx or_inst)) k (cmap_sx or_inst s) in
+        stat ("mapval_pa_" ^ (if okv then "ok" else "bad"))
+      end;
       if !ty = "mapor" && not !merges_seen && !all_causal then begin
         let okv = movalspec_ok (history_of (mop_sx or_inst)) k (cmap_sx or_inst s) in
         stat ("mapval_" ^ (if okv then "ok" else "bad"));
